@@ -751,6 +751,15 @@ func checkContainers(c *ContainerCase) (sub, msg string) {
 	ps := cedar.NewPolicySet()
 	last := map[string]int{}
 	for i, id := range c.IDs {
+		if i > 0 && i == (len(c.IDs)+1)/2 {
+			// the set is rendered once half-way through its construction: what it renders later must describe the set
+			// as it is then, not as it was at the first rendering
+			_ = ps.MarshalCedar()
+			if i >= 2 {
+				ps.Remove(cedar.PolicyID(c.IDs[0]))
+				ps.Add(cedar.PolicyID(c.IDs[0]), cps[last[c.IDs[0]]])
+			}
+		}
 		ps.Add(cedar.PolicyID(id), cps[i])
 		last[id] = i
 	}
@@ -764,6 +773,9 @@ func checkContainers(c *ContainerCase) (sub, msg string) {
 		order[k] = last[id]
 	}
 	sdoc := ps.MarshalCedar()
+	if again := ps.MarshalCedar(); !bytes.Equal(sdoc, again) {
+		return "set/bytes", fmt.Sprintf("PolicySet.MarshalCedar renders the unchanged set differently the second time\nfirst: %s\nsecond: %s", sdoc, again)
+	}
 	spl, err := cedar.NewPolicyListFromBytes("set.cedar", sdoc)
 	if err != nil {
 		return "set/rejected", fmt.Sprintf("PolicySet.MarshalCedar output does not parse: %v\ntext: %s", err, sdoc)
